@@ -155,8 +155,8 @@ func c06Run(c lib.Case, env *lib.Env) lib.Result {
 	prev := runtime.GOMAXPROCS(s.Procs)
 	defer runtime.GOMAXPROCS(prev)
 	sc := lib.NewSched(s.Sched, s.SchedSeed)
-	pwr.VerifHook = sc.Hook
-	defer func() { pwr.VerifHook = nil }()
+	lib.SetHook(sc)
+	defer lib.SetHook(nil)
 	vctx := &pwr.ValidatorContext{HealPath: "archive," + zipPath, Consumer: lib.Quiet()}
 	var verr error
 	var panicked bool
@@ -165,7 +165,7 @@ func c06Run(c lib.Case, env *lib.Env) lib.Result {
 		verr, panicked, stack = lib.Guard(func() error { return vctx.Validate(context.Background(), dir, sig) })
 	}, 60*time.Second)
 	sc.Finish()
-	pwr.VerifHook = nil
+	lib.SetHook(nil)
 	res.Add("heals", 1)
 	events := sc.Events()
 	res.Add("hook_events", int64(len(events)))
